@@ -108,13 +108,9 @@ def _work(job):
 
 
 def _child(job, conn):
-    try:
-        import resource
-        lim = int(os.environ.get('PYVC_JOB_MEM_GB', '8')) << 30
-        if job[0] != 'lean':          # Lean reserves a large virtual address space
-            resource.setrlimit(resource.RLIMIT_AS, (lim, lim))
-    except Exception:
-        pass
+    if os.environ.get('PYVC_HANG_TRACE'):
+        import faulthandler
+        faulthandler.dump_traceback_later(int(os.environ.get('PYVC_HANG_AFTER', '120')), file=open(os.path.join(os.environ['PYVC_HANG_TRACE'], 'hang-%d.txt' % os.getpid()), 'w'))
     try:
         conn.send(_work(job))
     except Exception as ex:
@@ -128,6 +124,20 @@ def _child(job, conn):
 
 JOB_TIMEOUT = {'quick': {'unit': 600, 'lemma': 240, 'canary': 180, 'bounded': 600, 'lean': 900},
                'thorough': {'unit': 1500, 'lemma': 600, 'canary': 900, 'bounded': 1800, 'lean': 1500}}
+
+
+MEM_LIMIT_GB = float(os.environ.get('PYVC_JOB_MEM_GB', '10'))
+
+
+def _rss_gb(pid):
+    try:
+        with open('/proc/%d/status' % pid) as fh:
+            for line in fh:
+                if line.startswith('VmRSS:'):
+                    return int(line.split()[1]) / (1 << 20)
+    except OSError:
+        pass
+    return 0.0
 
 
 def run_jobs(jobs, njobs, tier):
@@ -163,7 +173,8 @@ def run_jobs(jobs, njobs, tier):
                     # killed by the memory limit or by a solver abort: undecided, not a checker crash
                     results.append((job[0], job[1], {'timeout': True, 'secs': time.time() - t0, 'why': 'worker exited with %s' % p.exitcode}))
                 done = True
-            elif time.time() - t0 > JOB_TIMEOUT[tier][job[0]]:
+            elif time.time() - t0 > JOB_TIMEOUT[tier][job[0]] or _rss_gb(p.pid) > MEM_LIMIT_GB:
+                # (an address-space rlimit makes z3/cvc5 crawl, so resident memory is watched from outside instead)
                 p.kill()
                 results.append((job[0], job[1], {'timeout': True, 'secs': time.time() - t0}))
                 done = True
